@@ -33,6 +33,13 @@ class Runner:
         self.release = release
         self.notes = {}
         self.mc = []              # model-checking runs: dicts with states/transitions/...
+        self.flushed = 0          # sessions already validated (their records are dropped)
+        self.res = None           # merged validation results
+        self.violations = []
+        self.seen_clauses = set()
+        self.samples = []
+        self.frames_run = 0
+        self.nflush = 0
 
     def driver(self, level=0, release=False):
         k = (level, release)
@@ -44,6 +51,28 @@ class Runner:
         s = Session(self.driver(cfg.level, release), cfg, label)
         self.sessions.append(s)
         return s
+
+    def flush(self, jobs=12, chunk_events=1500):
+        """Validate the sessions recorded since the last flush with TLC, keep verdicts, replay
+        files and samples, and drop their records (long thorough runs stay within memory)."""
+        pending = self.sessions[self.flushed:]
+        if not pending:
+            return
+        self.nflush += 1
+        res = tv.validate("%s_%s_%d" % (self.prop, self.tier, self.nflush), [s.records for s in pending],
+                          focus=self.prop, jobs=jobs, chunk_events=chunk_events)
+        v, k, smp = materialise(self.prop, self, res, base=self.flushed)
+        self.violations += v
+        self.samples += smp
+        self.frames_run += sum(1 for s in pending for r in s.records if r.get("ev") == "frame")
+        # session indices in verdicts are relative to this flush: make them absolute
+        res["verdicts"] = [(si + self.flushed,) + tuple(rest) for (si, *rest) in res["verdicts"]]
+        res["knowns"] = [(si + self.flushed,) + tuple(rest) for (si, *rest) in res["knowns"]]
+        self.res = merge(self.res, res)
+        for s in pending:
+            s.records = s.records[:2]
+            s.frames = []
+        self.flushed = len(self.sessions)
 
     def close(self):
         for d in self.drivers.values():
@@ -94,9 +123,46 @@ def shrink(prop, sess, idx, clause):
     return sess, idx
 
 
-def finish(prop, tier, seed, runner, res, t0, level, rule, extra_cov=None, gen_stats=None):
-    """Print verdict lines, write the evidence file, return the exit code."""
+def materialise(prop, runner, res, base=0):
+    """Turn the verdicts of one validation run into replay files (shrunk when the failing frame
+    alone reproduces the clause) and sample records.  Returns (violations, knowns, samples)."""
     viol = [v for v in res["verdicts"] if v[2] == prop]
+    out, seen = [], set(runner.seen_clauses)
+    for (si, ri, p, tag, outcome) in viol:
+        if (tag, outcome) in seen:
+            continue
+        seen.add((tag, outcome))
+        if len(seen) > 20:
+            break
+        sess = runner.sessions[base + si]
+        s2, r2 = shrink(prop, sess, ri, tag)
+        path = write_replay(prop, s2, r2, tag, outcome)
+        out.append({"clause": tag, "outcome": outcome, "session": sess.label, "replay": path})
+    runner.seen_clauses = seen
+    samples = []
+    for s in runner.sessions[base:base + 400]:
+        for rec in s.records[2:]:
+            if rec.get("ev") == "frame" and len(samples) < 6 and (len(samples) == 0 or hash(str(rec["req"][:20])) % 7 == 0):
+                samples.append({"session": s.label, "req": hexs(rec["req"]), "out": rec["out"], "rep": hexs(rec["rep"]),
+                                "tcb": rec["tcb"], "log": ["%s.%s" % (e["layer"], e["verb"]) for e in rec["log"]]})
+    return out, res["knowns"], samples
+
+
+def merge(a, b):
+    if a is None:
+        return b
+    for k in ("states", "transitions", "events", "chunks", "wall_s"):
+        a[k] = a.get(k, 0) + b.get(k, 0)
+    for k, v in b["outcomes"].items():
+        a["outcomes"][k] = a["outcomes"].get(k, 0) + v
+    a["verdicts"] += b["verdicts"]
+    a["knowns"] += b["knowns"]
+    return a
+
+
+def finish(prop, tier, seed, runner, res, t0, level, rule, extra_cov=None, gen_stats=None):
+    """Print verdict lines, write the evidence file, return the exit code.  `res` is the merged
+    result of all validation runs; violations were materialised by Runner.flush()."""
     other = [v for v in res["verdicts"] if v[2] != prop]
     known = tv.known_entries()
     known_by_key = {k["key"]: k for k in known if k["property"] == prop}
@@ -107,27 +173,12 @@ def finish(prop, tier, seed, runner, res, t0, level, rule, extra_cov=None, gen_s
             printed.add(key)
             print("KNOWN-FINDING: property=%s %s" % (prop, ent["what"]))
     rc = 0
-    seen = set()
-    for (si, ri, p, tag, outcome) in viol:
-        if (tag, outcome) in seen:
-            continue
-        seen.add((tag, outcome))
-        sess = runner.sessions[si]
-        s2, r2 = shrink(prop, sess, ri, tag)
-        path = write_replay(prop, s2, r2, tag, outcome)
-        print("VIOLATION property=%s replay=%s" % (prop, path))
-        print("  clause=%s outcome=%s session=%s" % (tag, outcome, sess.label))
+    for v in runner.violations:
+        print("VIOLATION property=%s replay=%s" % (prop, v["replay"]))
+        print("  clause=%s outcome=%s session=%s" % (v["clause"], v["outcome"], v["session"]))
         rc = 1
-        if len(seen) >= 20:
-            break
-    # samples: a few of the executions actually validated
-    samples = []
-    for s in runner.sessions[:400]:
-        for rec in s.records[2:]:
-            if rec.get("ev") == "frame" and len(samples) < 6 and (len(samples) == 0 or hash(str(rec["req"][:20])) % 7 == 0):
-                samples.append({"session": s.label, "req": hexs(rec["req"]), "out": rec["out"], "rep": hexs(rec["rep"]),
-                                "tcb": rec["tcb"], "log": ["%s.%s" % (e["layer"], e["verb"]) for e in rec["log"]]})
-    frames = sum(1 for s in runner.sessions for r in s.records if r.get("ev") == "frame")
+    samples = runner.samples[:6]
+    frames = runner.frames_run
     nontrivial = {k: v for k, v in res["outcomes"].items() if k not in ("reconfigure", "reset")}
     cov = {
         "states": max(1, res["states"] + sum(m.get("states", 0) for m in runner.mc)),
@@ -153,7 +204,7 @@ def finish(prop, tier, seed, runner, res, t0, level, rule, extra_cov=None, gen_s
     ev = {"property_id": prop, "tier": tier, "seed": seed, "level": level, "coverage": cov,
           "assumptions": ["the driver (cargo feature verif) calls the same reply() as main()",
                           "TLC, the CommunityModules JSON reader, the harness frame encoder / log tokeniser / zlib and ipaddress decodes"],
-          "wall_s": round(time.time() - t0, 2), "violations": len(seen)}
+          "wall_s": round(time.time() - t0, 2), "violations": len(runner.violations)}
     os.makedirs(EVID, exist_ok=True)
     with open(os.path.join(EVID, prop + ".json"), "w") as fh:
         json.dump(ev, fh, indent=1)
